@@ -140,7 +140,7 @@ class StreamArbiter(Elaboratable):
         #
 
         # Only change which stream we're working with when the active stream stops transmitting.
-        with m.If(~active_stream.valid):
+        with m.If(~active_stream.valid.any()):
 
             # Assume we're idle until proven otherwise.
             m.d.comb += self.idle.eq(1)
